@@ -428,6 +428,54 @@ pub fn main_blockruns(args: &[String]) {
     write_json(&args[0], &json!({"n": n, "archive_bytes": bytes.len(), "violations": viol}));
 }
 
+/// Probe "everyblock" (C06, reading of FORMAT.md): the text example of FORMAT.md lists EVERY block of a file in
+/// `offsets` ("Off0, Off2, Off3 and Off5"), the struct comment and the sample archive list the first block of each
+/// continuous run.  An archive whose index follows the text example is encoded independently and read by the library.
+/// args: out.json
+pub fn main_everyblock(args: &[String]) {
+    quiet_panics();
+    use sha2::Digest;
+    let h = |d: &[u8]| -> [u8; 32] { sha2::Sha256::digest(d).into() };
+    let blocks = vec![
+        Block::Start { id: 1, name: b"one".to_vec() },      // Off0
+        Block::Start { id: 2, name: b"two".to_vec() },      // Off1
+        Block::Content { id: 1, data: b"ab".to_vec() },     // Off2
+        Block::Content { id: 1, data: b"cd".to_vec() },     // Off3
+        Block::Content { id: 2, data: b"xy".to_vec() },     // Off4
+        Block::Content { id: 1, data: b"ef".to_vec() },     // Off5
+        Block::Eof { id: 1, hash: h(b"abcdef") },           // Off6
+        Block::Eof { id: 2, hash: h(b"xy") },               // Off7
+        Block::End,
+    ];
+    let mut offs = vec![];
+    let mut p = 0u64;
+    for b in &blocks {
+        offs.push(p);
+        p += refcodec::dump_block(b).len() as u64;
+    }
+    let mut out = vec![];
+    for (label, one, two) in [("runs (struct comment, sample archive)", vec![offs[0], offs[2], offs[5]], vec![offs[1], offs[4], offs[7]]),
+                              ("every block (text example)", vec![offs[0], offs[2], offs[3], offs[5], offs[6]], vec![offs[1], offs[4], offs[7]])] {
+        let index = vec![(b"one".to_vec(), one, 6u64, offs[6]), (b"two".to_vec(), two, 2u64, offs[7])];
+        let plain = refcodec::dump_blocks(&blocks, &index);
+        let e = EncPar { layers: 0, recipients: &[], key: [0; 32], nonce: [0; 8], ephemeral: [0; 32], level: 0 };
+        let bytes = refcodec::encode_stream(&plain, &e, &consts());
+        let r = guarded(|| -> Result<Value, String> {
+            let mut rd = ArchiveReader::new(Cursor::new(&bytes[..])).map_err(|e| format!("open: {e:?}"))?;
+            let mut res = serde_json::Map::new();
+            for name in ["one", "two"] {
+                let mut got = vec![];
+                let r = rd.get_file(name.to_string()).map_err(|e| format!("{e:?}")).and_then(|f| f.ok_or("not found".to_string()))
+                    .and_then(|mut f| f.data.read_to_end(&mut got).map_err(|e| e.to_string()));
+                res.insert(name.to_string(), json!({"read": format!("{r:?}"), "content": String::from_utf8_lossy(&got)}));
+            }
+            Ok(Value::Object(res))
+        });
+        out.push(json!({"index": label, "result": format!("{r:?}")}));
+    }
+    write_json(&args[0], &json!({"probes": out}));
+}
+
 pub fn main(args: &[String]) {
     let jobs = read_jsonl(&args[0]);
     let start: usize = args.get(3).and_then(|s| s.parse().ok()).unwrap_or(0);
